@@ -310,7 +310,7 @@ def gen_exprs(rnd, depth):
     if depth == 0 or rnd.random() < 0.25:
         src, nrm = rnd.choice(_atoms())
         return src, "ATOM", ("atom", nrm)
-    kind = rnd.choice(["OR", "AND", "NOT", "CMP", "SUM", "PROD", "NEG", "PAREN"])
+    kind = rnd.choice(["OR", "AND", "OR", "AND", "NOT", "CMP", "CMP", "SUM", "PROD", "NEG", "PAREN", "PAREN"])
     if kind == "PAREN":
         s, lv, t = gen_exprs(rnd, depth - 1)
         return f"({s})", "ATOM", ("paren", t)
@@ -443,9 +443,9 @@ def strip_parens(t):
 def b_expressions(tier, seed):
     rnd = random.Random(seed)
     fails, n = [], 0
-    N = 400 if tier != "thorough" else 6000
+    N = 1500 if tier != "thorough" else 12000
     for i in range(N):
-        src, lv, tree = gen_exprs(rnd, rnd.randint(1, 3 if tier != "thorough" else 4))
+        src, lv, tree = gen_exprs(rnd, rnd.randint(1, 4))
         for tmpl, key in (("CLASS EXPRESSION ({}) END", "expression"), ("LAYER FILTER ({}) END", "filter")):
             n += 1
             text = tmpl.format(src)
